@@ -119,6 +119,19 @@ def build_calc_net(feats=()):
             i0_percent=0.1, shift_degree=0.0, vector_group="YNyn", vk0_percent=8.0, vkr0_percent=0.5, mag0_percent=100.0,
             mag0_rx=0.0, si0_hv_partial=0.9, tap_side="hv", tap_neutral=0, tap_min=-2, tap_max=2, tap_step_degree=2.0,
             tap_pos=1, tap_changer_type="Ideal", max_loading_percent=100.)
+    # measurements for the state-estimation kind of C08: exact values of a power flow of this very net; a bus-bus switch with
+    # impedance between two extra buses gives estimate(fuse_buses_with_bb_switch=...) something to change temporarily
+    try:
+        pp.runpp(net)
+        for bus in net.bus.index:
+            pp.create_measurement(net, "v", "bus", float(net.res_bus.vm_pu.at[bus]), 0.002, bus)
+            pp.create_measurement(net, "p", "bus", float(net.res_bus.p_mw.at[bus]), 0.01, bus)
+            pp.create_measurement(net, "q", "bus", float(net.res_bus.q_mvar.at[bus]), 0.01, bus)
+        for t in [k for k in list(net.keys()) if k.startswith("res_")]:
+            net[t] = net[t].iloc[0:0]
+        net["_ppc"] = None
+    except Exception:  # noqa
+        pass
     if "taptable" in feats:
         net["trafo_characteristic_table"] = char_table({0: [-2, -1, 0, 1, 2]})
         net.trafo["id_characteristic_table"] = net.trafo["id_characteristic_table"].astype("Int64")
